@@ -75,6 +75,15 @@ def run(case, ctx):
                                 f"window col {wc[c]}, aggregate col {ac[c]}")
         if len({repr(x) for x in ac[c]}) > 1:
             varies = True
+    # an aggregate over a partition column itself (count of a key skips its None like any other count)
+    ctx.ev()
+    try:
+        wk, ak = t.window(over=over_arg, count_over=over[0]), t.aggregate(over=over_arg, count_over=over[0])
+    except Exception as e:  # noqa: BLE001
+        return ctx.fail(f"window/count-of-key/raised/{type(e).__name__}", str(e))
+    wkc, akc = list(wk.cols()[-1]), list(ak.cols()[-1])
+    if len(wkc) == n and any(not same(wkc[i], akc[gi[i]]) for i in range(n)):
+        return ctx.fail("window/count-of-key/differs-from-aggregate", f"keys {key_tuples}: window {wkc}, aggregate {akc}")
     # no partition key at all (over=[]): if the library takes the whole table as one group, window repeats aggregate's single row
     if kw and n:
         ctx.ev()
